@@ -112,7 +112,9 @@ def eval_exprs(exprs, symtype, symvals: SymVals):
     cols = []
     sizes = []
     for e in exprs:
-        if _is_cs(e):
+        if isinstance(e, cs.DM):  # plain numbers held by CasADi (dense or structurally sparse)
+            c = XX(cs.DM(np.asarray(e.full(), dtype=float).ravel(order="F").tolist()))
+        elif _is_cs(e):
             if not isinstance(e, XX):
                 raise R.Inadmissible("mixed symbol types")
             c = cs.vec(e)
